@@ -27,8 +27,11 @@ static int g_dirty_ids[64]; static int g_ndirty_ids = 0;
 static size_t g_dirty_sizes[64];
 
 static inline bool window_interesting(const unsigned char* w, size_t k) {
-    for (size_t i = 1; i < k; ++i) if (w[i] != w[0]) return true;   // skip constant windows (zero padding, 0x36/0x5c runs)
-    return false;
+    // a window is evidence only if it could not occur by accident: at least four different byte values, at most two zero bytes
+    // (skips zero padding, 0x36/0x5c runs, and windows such as "1f 00 00 00 00 00 00 00", which is also the integer 31 in any header)
+    size_t zeros = 0, distinct = 0; bool seen[256] = {false};
+    for (size_t i = 0; i < k; ++i) { if (w[i] == 0) ++zeros; if (!seen[w[i]]) { seen[w[i]] = true; ++distinct; } }
+    return distinct >= (k < 4 ? k : 4) && zeros <= 2;
 }
 static inline void note_dirty(int id, size_t sz) {
     ++g_dirty; if (g_ndirty_ids < 64) { g_dirty_ids[g_ndirty_ids] = id; g_dirty_sizes[g_ndirty_ids] = sz; ++g_ndirty_ids; }
